@@ -193,10 +193,10 @@ def open_live(ctx, fam, cg=None, suffix=""):
         return None
 
 
-def model_parse(fam, raw, offset=0):
+def model_parse(fam, raw, offset=0, wrap=False):
     """-> ("ok", vals, end, Parse) | ("err", ModelError) | ("unspec", msg)"""
     try:
-        vals, end, p = ir.parse(fam, raw, offset)
+        vals, end, p = ir.parse(fam, raw, offset, wrap)
         return ("ok", vals, end, p)
     except ir.ModelError as e:
         return ("err", e)
